@@ -117,7 +117,7 @@ def r1_protocol(ctx):
     ins = q.call_exprs(b, "Tree::insert")
     keys = {sig(e[2][1]) for bi, e in ins}
     r.check(keys == {_countkey("$2")}, "icc/key", "count key = hash_keyed(\"coin_count\", covhash)", "count keys %s" % keys)
-    zero = [e for e, c, bi in q.cmp_atoms(b) if c in ("Eq(0, $3)", "Eq($3, 0)")]
+    zero = [e for e, c, bi in q.pick_atoms(b, lambda c: c in ("Eq(0, $3)", "Eq($3, 0)")) if c in ("Eq(0, $3)", "Eq($3, 0)")]   # `count == 0` or `count != 0`
     r.check(bool(zero), "icc/zero-test", "count == 0 is tested", "insert_coin_count does not test for zero (zero counts stay as entries)")
     if zero:
         f = force(b, {zero[0]: 1})
